@@ -382,6 +382,11 @@ class XsiType(Family):
    </xs:restriction>
   </xs:complexContent>
  </xs:complexType>
+ <xs:complexType name="Q">
+  <xs:complexContent><xs:extension base="t:Base">
+   <xs:attribute name="req" type="xs:int" use="required"/>
+  </xs:extension></xs:complexContent>
+ </xs:complexType>
  <xs:complexType name="Other">
   <xs:sequence><xs:element name="o" type="xs:string" minOccurs="0"/></xs:sequence>
  </xs:complexType>
@@ -389,9 +394,11 @@ class XsiType(Family):
  <xs:element name="root4">
   <xs:complexType><xs:sequence>
     <xs:element name="grp" maxOccurs="unbounded">
-     <xs:complexType><xs:sequence><xs:element ref="t:x" maxOccurs="unbounded"/></xs:sequence></xs:complexType>
+     <xs:complexType><xs:sequence><xs:element ref="t:x" maxOccurs="unbounded"/>
+       <xs:element name="lx" type="t:Base" minOccurs="0" maxOccurs="unbounded"/></xs:sequence></xs:complexType>
      <xs:unique name="u4"><xs:selector xpath=".//t:y"/><xs:field xpath="@v"/></xs:unique>
      <xs:unique name="u4n"><xs:selector xpath="t:x"/><xs:field xpath="@n"/></xs:unique>
+     <xs:key name="k4l"><xs:selector xpath="t:lx"/><xs:field xpath="@n"/></xs:key>
     </xs:element>
     <xs:element name="misc" minOccurs="0">
      <xs:complexType><xs:sequence><xs:element ref="t:x" maxOccurs="unbounded"/></xs:sequence></xs:complexType>
@@ -436,14 +443,18 @@ class XsiType(Family):
         ty = f' xsi:type="{x["type"]}"' if x.get('type') else ''
         if x.get('n'):
             ty += f' n="{x["n"]}"'
+        if x.get('req'):
+            ty += f' req="{x["req"]}"'
         s = f'<t:x{ty}>' + ('<t:a>q</t:a>' if x.get('a') else '')
         s += ''.join(f'<t:y v="{v}"/>' for v in x.get('y', ())) + ''.join(f'<t:z v="{v}"/>' for v in x.get('z', ()))
         return s + '</t:x>'
 
-    def _grpdoc(self, groups, misc):
+    def _grpdoc(self, groups, misc, locals_=()):
         out = [_decl(), '<t:root4 xmlns:t="urn:xt" xmlns:xsi="http://www.w3.org/2001/XMLSchema-instance">\n']
-        for g in groups:
-            out.append(' <t:grp>' + ''.join(self._x(x) for x in g) + '</t:grp>\n')
+        for k, g in enumerate(groups):
+            lx = ''.join(self._x(x).replace('<t:x', '<t:lx').replace('</t:x>', '</t:lx>')
+                         for x in (locals_[k] if k < len(locals_) else ()))
+            out.append(' <t:grp>' + ''.join(self._x(x) for x in g) + lx + '</t:grp>\n')
         if misc:
             out.append(' <t:misc>' + ''.join(self._x(x) for x in misc) + '</t:misc>\n')
         out.append('</t:root4>\n')
@@ -486,6 +497,18 @@ class XsiType(Family):
                 'fault:dup-unique'),
             Doc('xt-r4-n-dup-plain', G([[{'n': 'k'}, {'n': 'k'}]], []), 'fault:dup-unique'),
             Doc('xt-r4-n-ok-typed', G([[{'type': 't:D', 'n': 'a', 'y': [1]}, {'n': 'b'}]], [{'n': 'a'}])),
+            # Q adds a REQUIRED attribute: a declaration left retyped to Q is observable on plain documents
+            Doc('xt-r4-Q-valid', G([[{'type': 't:Q', 'n': 'a', 'req': 1}, {'n': 'b'}]], [])),
+            Doc('xt-r4-n-dup-Q', G([[{'type': 't:Q', 'n': 'k', 'req': 1}, {'type': 't:Q', 'n': 'k', 'req': 2}]], []),
+                'fault:dup-unique'),
+            Doc('xt-r4-Q-missing-req', G([[{'type': 't:Q', 'n': 'a'}]], []), 'fault:structure'),
+            # the keyed element is a LOCAL declaration carrying xsi:type
+            Doc('xt-r4-lx-plain', G([[{'a': 1}]], [], [[{'n': 'a'}, {'n': 'b'}]])),
+            Doc('xt-r4-lx-Q-valid', G([[{}]], [], [[{'type': 't:Q', 'n': 'a', 'req': 1}, {'n': 'b'}]])),
+            Doc('xt-r4-lx-dup-Q', G([[{}]], [], [[{'type': 't:Q', 'n': 'k', 'req': 1}, {'type': 't:Q', 'n': 'k', 'req': 2}]]),
+                'fault:dup-key'),
+            Doc('xt-r4-lx-dup-plain', G([[{}]], [], [[{'n': 'k'}, {'n': 'k'}]]), 'fault:dup-key'),
+            Doc('xt-r4-lx-nokey', G([[{}]], [], [[{'a': 1}]]), 'fault:key-missing'),
         ]
         # larger randomised ones
         for k in range(3):
